@@ -113,6 +113,14 @@ Section C01.
     host_match re_match r rq1 = host_match re_match r rq2.
   Proof. exact (port_ignored re_match). Qed.
 
+  (** host comparison is exact: a rule with only an exact host matches iff that host equals the
+      port-stripped Host header byte for byte - `API.Example.com` does not match
+      `api.example.com` and vice versa *)
+  Theorem C01_host_exact : forall r rq,
+    ru_host r <> "" -> ru_host_re r = "" ->
+    (host_match re_match r rq = true <-> ru_host r = strip_port (rq_host rq)).
+  Proof. exact (host_exact re_match). Qed.
+
   (** a validated configuration never reaches rewrite's nil-regexp dereference *)
   Theorem C01_valid_never_panics : forall sv rq,
     valid_server sv = true -> serve_nocache re_match re_replace ip_allow sv rq <> Panicked.
@@ -156,6 +164,7 @@ Print Assumptions C01_body_limit.
 Print Assumptions C01_unknown_backend_503.
 Print Assumptions C01_match_all_header_semantics.
 Print Assumptions C01_port_ignored.
+Print Assumptions C01_host_exact.
 Print Assumptions C01_valid_never_panics.
 Print Assumptions C01_mapper_history_503.
 Print Assumptions C01_mapper_history_dispatch.
